@@ -25,6 +25,7 @@ SHARD_TIMEOUT = {"quick": 1800, "thorough": 10800}
 N_CASES = {"quick": 560, "thorough": 3600}
 N_DRAWS = {"quick": 8, "thorough": 25}
 N_COLD = {"quick": 10, "thorough": 64}
+N_REGEX = {"quick": 48, "thorough": 320}
 
 
 def new_run():
@@ -46,7 +47,12 @@ def new_run():
         "another size), plus a family "
         "of contradictory chains / over-constrained unique fields, a family of "
         "simple cases executed in FRESH interpreters (nothing validated before "
-        "strategy() is called) and a fixed directed corpus (one tiny case per "
+        "strategy() is called), a family of frames with REGEX columns (1-2 regex "
+        "columns expanded to n_regex_columns = 1-3 generated names, next to 0-2 "
+        "plain columns; the four nullable x unique combinations in equal shares, "
+        "mostly dtypes that can hold nulls, mostly explicit sizes >= 2 so that the "
+        "null mask is applied; variants with frame-level checks, frame-level dtype, "
+        "frame-level unique=[...] and an index component) and a fixed directed corpus (one tiny case per "
         "call site known to emit invalid data or sensitive to the order of the "
         "strategy's steps; two entries are sequences). One evaluation = one case; every "
         "draw of the case is validated by the producing schema (a rejection is "
@@ -420,6 +426,10 @@ def classify(case, fl, d):
         for x in datas:
             if (f["unique"] and f["nullable"] and x is not None and not x.is_unique
                     and int(x.isna().sum()) >= 2 and x.dropna().is_unique):
+                if where == "column" and f.get("regex"):
+                    # the list of unique columns handed to the null mask has
+                    # to name the generated columns
+                    return "null-mask-after-unique-emits-duplicate-nulls:regex-expanded-column"
                 return "null-mask-after-unique-emits-duplicate-nulls"
         if cls == "str" and any(x is not None and _nul_explains_duplicates(x) for x in datas):
             return NOT_JUDGED_NUL
@@ -683,6 +693,19 @@ def count_case_classes(run, case, prefix):
                 run.count(f"order:{a['k']}>{b['k']}")
         if f.get("regex"):
             run.count(f"{prefix}regex_column")
+            run.count(f"{prefix}regex_column:nullable={int(f['nullable'])},"
+                      f"unique={int(f['unique'])}")
+            run.count(f"{prefix}regex_column:n_regex_columns={case.get('n_regex', 1)}")
+            run.count(f"{prefix}regex_column:dtype_class:{f['cls']}")
+            if f["nullable"] and G.supports_nulls(f) and (case["size"] or 0) >= 2:
+                # the null mask is applied (explicit size) and can put several
+                # nulls into one generated column
+                run.count(f"{prefix}regex_column:null_mask_applies:unique={int(f['unique'])}")
+            if any(c["k"] in G.FALLBACK_ONLY for c in f["checks"]):
+                run.count(f"{prefix}regex_column:with_fallback_filter_check")
+            for what in ("df_checks", "df_dtype", "df_unique", "index"):
+                if case.get(what):
+                    run.count(f"{prefix}regex_column:frame_has:{what}")
         for c in f["checks"]:
             if c.get("as"):
                 run.count(f"{prefix}time_argument_given_as:{c['as']}:{c['k']}")
@@ -700,6 +723,8 @@ def count_case_classes(run, case, prefix):
                 if f["nullable"] and G.supports_nulls(f) and case["size"] != 0:
                     run.count(f"{prefix}aggregate_over_nullable_field")
                     run.count(f"{prefix}aggregate_over_nullable_field:{case['kind']}")
+    if case.get("focus"):
+        run.count(f"{prefix}family:{case['focus']}")
     if case.get("follows"):
         run.count(f"{prefix}follower:{case['follows']}")
     if case.get("df_checks"):
@@ -827,6 +852,7 @@ def _one_case(run, case, hseed, n, verbose, limit, cold, schema, prelude, out):
             run.count("observed:size_differs_from_request(not judged)")
         else:
             run.count(f"{P}draw_size:{len(d) if len(d) < 6 else '6+'}")
+        observe_regex(run, case, d, P)
         with warnings.catch_warnings():
             warnings.simplefilter("ignore")
             verdict, info = validate_draw(schema, case, d)
@@ -849,6 +875,36 @@ def _one_case(run, case, hseed, n, verbose, limit, cold, schema, prelude, out):
         else:
             run.count(P + "draw_not_judged")
     run.count(P + ("cases_all_draws_accepted" if not bad_case else "cases_with_rejected_draw"))
+
+
+def observe_regex(run, case, d, P=""):
+    """what the draws of a frame with regex columns looked like (evidence that
+    the null mask really reached the generated columns; nothing is judged here)"""
+    if case["kind"] != "frame" or not any(f.get("regex") for f in case["fields"]):
+        return
+    try:
+        for f in case["fields"]:
+            if not f.get("regex"):
+                continue
+            cols = [c for c in d.columns if isinstance(c, str) and re.fullmatch(f["name"], c)]
+            want = case.get("n_regex", 1)
+            run.count(P + ("observed:regex:generated_columns==n_regex_columns" if len(cols) == want
+                           else "observed:regex:generated_columns!=n_regex_columns(not judged)"))
+            if not (f["nullable"] and G.supports_nulls(f)) or len(d) < 2:
+                continue
+            for c in cols:
+                col = d[c]
+                if getattr(col, "ndim", 1) != 1:
+                    continue
+                nn = int(col.isna().sum())
+                tag = f"unique={int(f['unique'])}"
+                run.count(f"{P}observed:regex:nullable_column_drawn:{tag}")
+                if nn >= 1:
+                    run.count(f"{P}observed:regex:nullable_column_with_null:{tag}")
+                if nn >= 2:
+                    run.count(f"{P}observed:regex:nullable_column_with_2+_nulls:{tag}")
+    except Exception as e:              # noqa: BLE001
+        run.count(f"observed:regex:observer_error:{type(e).__name__}")
 
 
 def report(run, kind, case, brief, d, verdict, info, verbose):
@@ -893,7 +949,8 @@ def run(run, ctx):
     n_cases, n_draws, n_cold = N_CASES[ctx.tier], N_DRAWS[ctx.tier], N_COLD[ctx.tier]
     prewarm()
     directed = G.directed_cases()
-    for i in ctx.cases(n_cases + n_cold + len(directed)):
+    n_fixed = n_cases + n_cold + len(directed)
+    for i in ctx.cases(n_fixed + N_REGEX[ctx.tier]):
         rng = ctx.rng(PID, i)
         if i < n_cases:
             case = G.gen_case(rng)
@@ -905,6 +962,11 @@ def run(run, ctx):
         elif i < n_cases + n_cold:
             case = G.gen_cold_case(rng, i - n_cases)
             cold_case(run, case, rng.getrandbits(32), n_draws)
+        elif i >= n_fixed:
+            # family "regex": frames with regex columns x flags x frame options
+            case = G.gen_regex_case(rng, i - n_fixed)
+            run_sequence(run, [case], [rng.getrandbits(32)], n_draws,
+                         limit=TIME_LIMIT[ctx.tier])
         else:
             run.count("directed_corpus_cases")
             seq = directed[i - n_cases - n_cold]
@@ -959,11 +1021,11 @@ FLOORS_QUICK = {
     "judged:flags:nullable=0,unique=1": 18,
     "judged:int_in_range_exclusive_bound": 5,
     "judged:regex_special_in_string_arg:str_startswith": 2,
-    "judged:regex_column": 4, "judged:with_df_checks": 6,
+    "judged:regex_column": 16, "judged:with_df_checks": 6,
     "judged:with_index:single": 6, "judged:with_index:multi": 2,
     "judged:chain_len:1": 40, "judged:chain_len:2": 40, "judged:chain_len:3": 20,
     "distinct_ordered_check_pairs_judged": 50,
-    "dtypes_judged": len(G.ALL_DTYPES) - 2, "directed_corpus_cases": 26,
+    "dtypes_judged": len(G.ALL_DTYPES) - 2, "directed_corpus_cases": 29,
     "sizes_judged": 7,
     # classes added for the order of the strategy's steps, state carried from
     # one schema's strategy to the next, and falsy / foreign-typed arguments
@@ -976,6 +1038,20 @@ FLOORS_QUICK = {
     "judged:follower:params": 10, "judged:follower:resize": 3,
     "judged:factory_check_with_strategy": 14,
     "judged:time_argument_not_pandas": 5,
+    # family "regex": per-column work of dataframe_strategy on generated names
+    # (minimum over seeds 0,1,2,3,12345 of a quick run / 4; the regex_column
+    # counters include the regex columns of the general frame family)
+    "judged:family:regex": 9,
+    "judged:regex_column:nullable=1,unique=1": 3, "judged:regex_column:nullable=1,unique=0": 3,
+    "judged:regex_column:nullable=0,unique=1": 3, "judged:regex_column:nullable=0,unique=0": 4,
+    "judged:regex_column:null_mask_applies:unique=1": 2,
+    "judged:regex_column:null_mask_applies:unique=0": 2,
+    "judged:regex_column:n_regex_columns>1": 9,
+    "judged:regex_column:frame_has:df_checks": 1, "judged:regex_column:frame_has:df_dtype": 1,
+    "judged:regex_column:frame_has:df_unique": 1, "judged:regex_column:frame_has:index": 2,
+    # draws in which the null mask was seen at work in generated columns
+    "observed:regex:nullable_column_with_null:unique=1": 25,
+    "observed:regex:nullable_column_with_2+_nulls:unique=0": 13,
 }
 
 
@@ -995,6 +1071,9 @@ def finalize(run, ctx):
         v for k, v in c.items() if k.startswith("judged:factory_check_with_strategy:"))
     c["judged:time_argument_not_pandas"] = sum(
         v for k, v in c.items() if k.startswith("judged:time_argument_given_as:"))
+    c["judged:regex_column:n_regex_columns>1"] = (
+        c.get("judged:regex_column:n_regex_columns=2", 0)
+        + c.get("judged:regex_column:n_regex_columns=3", 0))
     mult = 1 if ctx.tier == "quick" else 8
     for name, m in FLOORS_QUICK.items():
         run.floors[name] = m if name in ("dtypes_judged", "sizes_judged",
